@@ -533,6 +533,8 @@ func (s Step) describe() string {
 		return fmt.Sprintf("failif(%s,%s,s%d)", s.Pred, failKindNames[s.Kind], s.Site)
 	case "skipif":
 		return fmt.Sprintf("skipif(%s)", s.Pred)
+	case "invalidif":
+		return fmt.Sprintf("invalidif(%s)", s.Pred)
 	case "add":
 		return "ctr+=last"
 	case "go":
@@ -588,6 +590,12 @@ func (x *X) exec(steps []Step) {
 		case "skipif":
 			if s.Pred.eval(x) {
 				x.skip("skipif " + s.Pred.String())
+			}
+		case "invalidif":
+			// the attempt becomes invalid through a generator (unsatisfiable Filter), not through (*T).Skip
+			if s.Pred.eval(x) {
+				x.ev("invalid-draw")
+				x.draw(impossibleGen, "never")
 			}
 		case "add":
 			// mutate the model with the last integer draw – only reached when the action did not skip
